@@ -726,6 +726,8 @@ class Interp:
             return None
         if isinstance(v, PyRaise) and name == "args":
             return (v.msg,)
+        if callable(v) and name in getattr(v, "_ufunc", {}):
+            return v._ufunc[name]
         if isinstance(v, BT) and name == "__name__":
             return v.name
         if isinstance(v, BT) and v.name == "dict" and name == "fromkeys":
@@ -817,6 +819,8 @@ class Interp:
             if bad:
                 raise AnalysisAbort(f"{what}: keyword(s) {bad} are not modelled")
             return f(*a, **k)
+        if hasattr(f, "_ufunc"):
+            guarded._ufunc = f._ufunc
         return guarded
 
     # ================================================================ external modules
@@ -2180,7 +2184,12 @@ class Interp:
                     self.tainted(f"equality test on a position-derived integer (line {n.lineno}) in {self.stack[-1] if self.stack else '?'}")
             self.length_eq_taint(l, r, n)
             return self.py_eq(l, r) if isinstance(op, ast.Eq) else not self.py_eq(l, r)
-        if isinstance(l, TInt) or isinstance(r, TInt):
+        def emptiness(x, y, o):
+            """`len(..) > 0`, `len(..) >= 1`, `len(..) < 1`, `len(..) <= 0`: the same for every non-empty representative"""
+            return isinstance(x, TInt) and x.src is not None and int(x) >= 1 and type(y) is int and \
+                ((y == 0 and isinstance(o, (ast.Gt, ast.LtE))) or (y == 1 and isinstance(o, (ast.GtE, ast.Lt))))
+        flip = {ast.Gt: ast.Lt, ast.Lt: ast.Gt, ast.GtE: ast.LtE, ast.LtE: ast.GtE}
+        if (isinstance(l, TInt) or isinstance(r, TInt)) and not (emptiness(l, r, op) or emptiness(r, l, flip[type(op)]())):
             self.tainted(f"ordered comparison on a length/position-derived integer (line {n.lineno}) in "
                          f"{self.stack[-1] if self.stack else '?'}")
         try:
